@@ -114,7 +114,7 @@ func c02Src(ns []*pNode) string {
 			}
 			s += "{/if}"
 		case 3:
-			s += "{foreach $i in $l}" + c02Src(n.body) + "{$i}{if isLast($i)}.{/if}"
+			s += "{foreach $i in $l}" + c02Src(n.body) + "{$i}{if isLast($i)}.{/if}{if isFirst($i)}^{/if}{index($i)}"
 			if n.has {
 				s += "{ifempty}e"
 			}
@@ -264,6 +264,10 @@ func (e *c02Env) run(ns []*pNode) {
 				if idx == len(l)-1 {
 					e.out = append(e.out, '.')
 				}
+				if idx == 0 {
+					e.out = append(e.out, '^')
+				}
+				e.out = append(e.out, byte('0'+idx))
 				e.pop()
 			}
 		case 4:
